@@ -394,7 +394,39 @@ func c19ImmutableEval(c *core.Ctx, dir string, prog *parser.Program, cs c19Case)
 	}
 }
 
+// c19Environ: with Config.Environ left nil the interpreter reads the process
+// environment; a program that changes ENVIRON changes its own copy only, so the
+// same Program gives the same result every time and nothing package-level is
+// written.
+func c19Environ(c *core.Ctx) {
+	if !c.Mine() {
+		return
+	}
+	src := `BEGIN { print ("C19X" in ENVIRON), ("PATH" in ENVIRON), (length(ENVIRON) > 0); ENVIRON["C19X"] = NR "v"; delete ENVIRON["PATH"]; ENVIRON["HOME"] = "/changed"; print ENVIRON["HOME"] }`
+	prog := awk.MustParse(src, nil)
+	cs := c19Case{Part: "environ", Name: "process-environment", Src: src}
+	var outs []string
+	var globals []string
+	for i := 0; i < 3; i++ {
+		var out bytes.Buffer
+		st, err := interp.ExecProgram(prog, &interp.Config{Stdin: strings.NewReader(""), Output: &out, Error: &bytes.Buffer{}}) // Environ nil
+		outs = append(outs, fmt.Sprintf("%q %d %v", out.String(), st, err))
+		globals = append(globals, vexp.DumpGlobals())
+		c.Eval(1)
+		c.Add("transitions", 1)
+	}
+	c.Add("states", 1)
+	c.Outcome("environ " + outs[0])
+	if outs[1] != outs[0] || outs[2] != outs[0] {
+		c.Fail("immutable:repeated-execution-differs", cs, fmt.Sprintf("executions of one Program with the process environment: %v", outs))
+	}
+	if globals[1] != globals[2] {
+		c.Fail("immutable:package-level-state-modified-by-execution", cs, c19FirstDiff(globals[1], globals[2]))
+	}
+}
+
 func c19Immutability(c *core.Ctx) {
+	c19Environ(c)
 	dir := c01Dir(c)
 	f := func(pc progenum.Case) {
 		if !c.Mine() || c.Expired() {
@@ -624,6 +656,8 @@ func c19Replay(c *core.Ctx, raw json.RawMessage) {
 			return
 		}
 		c19ImmutableEval(c, c01Dir(c), prog, cs)
+	case "environ":
+		c19Environ(c)
 	case "race":
 		c.Shard = 0
 		c19RacePass(c)
